@@ -758,3 +758,249 @@ def build_clock(pid, tier):
     return [Obligation('miner.State::deadline_info [clock]', run_clock, wrap(props_clock),
                        descr='the deadline clock as a function of the stored proving-period offset and the epoch: index, open, close, challenge, fault cutoff and period start of the current deadline',
                        bounds='epochs and offsets in [0, 2^40); default network policy (48 windows of 60 epochs, look-back 20, fault cutoff 70)', max_paths=2000, fresh_solver=True)]
+
+
+# ---- declare_faults: declared faults lose their power at once -----------------------------------------------------------------
+# CUTS (declared): the parameter map (DeadlineSectorMap add / check / iter: 1 or 2 deadlines), declaration_deadline_info (arbitrary
+# DeadlineInfo, shape as decided by the clock obligation), validate_fr_declaration_deadline (arbitrary verdict), deadline / sector
+# loading and saving, Deadline::record_faults -> arbitrary power delta (recorded).
+
+def run_declare_faults(ndl):
+    def run(E):
+        rt, rtref = new_rt(E)
+        pre = mk_miner_state(E, 0)
+        rt.state = pre['st']
+        E.ctx.assume(rt.balance >= pre['pcd'] + pre['lf'] + pre['ip'])
+        E.ctx.assume(z3.And(rt.epoch >= 0, rt.epoch < 2**40))
+        E.ctx.assume(z3.Not(C13.bz(C13.view(E, pre['info'])['pw_some'])))
+        env = E.ctx.env
+        env['balance0'] = rt.balance
+        ST = SF()
+        pps = fget(E, pre['st'], ST['proving_period_start'], 'i64').v
+        E.ctx.assume(z3.And(pps >= 0, pps < 2**40))
+        lz = lambda nm, ty: (lambda E2, c: ok(LazyV(E2.ctx.fresh_name(nm), ty), c.dest_ty))
+        okc = lambda E2, c: ok(UNIT, c.dest_ty)
+        dls = [E.materialize('u64', 'decl%d.deadline' % i) for i in range(ndl)]
+        for a, b in zip(dls, dls[1:]):
+            E.ctx.assume(a.v < b.v)
+        for d in dls:
+            E.ctx.assume(d.v < 48)
+        E.cuts['DeadlineSectorMap::add'] = okc
+        E.cuts['DeadlineSectorMap::check'] = okc
+        E.cuts['DeadlineSectorMap::iter'] = lambda E2, c: ObjV(models_core.ListIter([StructV('tuple', {0: d, 1: RefV(Cell(LazyV('partition_map%d' % i, 'deadline_state::PartitionSectorMap'), 'pm'), (), True)}) for i, d in enumerate(dls)]))
+        E.cuts['State::load_deadlines'] = lz('deadlines', 'deadlines::Deadlines')
+        E.cuts['State::save_deadlines'] = okc
+        E.cuts['Sectors::load'] = lz('sectors', 'sectors::Sectors')
+        E.cuts['Deadlines::load_deadline'] = lz('dl', 'deadline_state::Deadline')
+        E.cuts['Deadlines::update_deadline'] = okc
+        E.cuts['State::current_proving_period_start'] = lambda E2, c: E2.materialize('i64', E2.ctx.fresh_name('period_start'))
+        DI = Fields('actors/miner/src/deadline_info.rs', 'DeadlineInfo')
+
+        def cut_ddi(E2, c):
+            op = z3.Int(E2.ctx.fresh_name('target.open'))
+            E2.ctx.assume(z3.And(op > -2**41, op < 2**41))
+            I = lambda v, ty='i64': IntV(v, ty)
+            idx = zv(c.args[2])
+            di = StructV('deadline_info::DeadlineInfo', {DI['current_epoch']: I(rt.epoch), DI['period_start']: I(op - 60 * idx), DI['index']: I(idx, 'u64'), DI['open']: I(op),
+                                                         DI['close']: I(op + 60), DI['challenge']: I(op - 20), DI['fault_cutoff']: I(op - 70),
+                                                         DI['w_post_period_deadlines']: I(48, 'u64'), DI['w_post_proving_period']: I(2880), DI['w_post_challenge_window']: I(60),
+                                                         DI['w_post_challenge_lookback']: I(20), DI['fault_declaration_cutoff']: I(70)})
+            return ok(di, c.dest_ty)
+        E.cuts['declaration_deadline_info'] = cut_ddi
+        verdicts = env.setdefault('in_time', [])
+
+        def cut_validate(E2, c):
+            b = E2.ctx.fresh_bool('declaration_in_time')
+            verdicts.append(b)
+            return ok(UNIT, c.dest_ty) if E2.ctx.branch(b) else err(OpaqueV('anyhow'), c.dest_ty)
+        E.cuts['validate_fr_declaration_deadline'] = cut_validate
+        faults = env.setdefault('faults', [])
+
+        def cut_record(E2, c):
+            k = len(faults)
+            pd = (z3.Int('faults%d.power.raw' % k), z3.Int('faults%d.power.qa' % k))
+            faults.append(pd)
+            return ok(_pp(*pd), c.dest_ty)
+        E.cuts['Deadline::record_faults'] = cut_record
+        from .miner_money import install_bib_cut
+        install_bib_cut(E)
+        rt.send_hook = lambda E2, rt2, rec, nm: ('ok', None)
+        decls = [StructV('types::FaultDeclaration', {0: d, 1: E.materialize('u64', 'decl%d.partition' % i), 2: models_fvm.BitFieldV('decl%d.sectors' % i)}) for i, d in enumerate(dls)]
+        params = StructV('types::DeclareFaultsParams', {0: VecV(decls, 'Vec<FaultDeclaration>')})
+        env['ndl'] = ndl
+        fn = find_fn(E, MINER, 'declare_faults', 'src/lib.rs')
+        return E.run_function(fn, [rtref, params]), rt
+    return run
+
+
+def props_declare_faults(E, res):
+    from .miner_money import bib_prop
+    env = res.ctx.env
+    rt, pre = env['rt'], env['pre']
+    ctx = res.ctx
+    if res.kind != 'return':
+        return [tagged('ALL', 'no panic (%s)' % str(res.info)[:60], False)]
+    if is_err(res.value):
+        return [bib_prop(res), tagged('C02,C15', 'a refused fault declaration commits nothing and changes no power', z3.BoolVal(rt.commits == 0 and len(rt.sends) == 0))]
+    faults = env.get('faults', [])
+    P = [tagged('C02', 'every declared deadline has its faults recorded', len(faults) == env['ndl']),
+         tagged('C02,C15', 'faults are accepted only inside the declaration window of their deadline', z3.And(*env.get('in_time', [])) if env.get('in_time') else z3.BoolVal(False))]
+    tot = (sum(f[0] for f in faults) if faults else 0, sum(f[1] for f in faults) if faults else 0)
+    ups = [s for s in rt.sends if implied(ctx, b_and(s.to.key == POWER, zv(s.method) == UPDATE_CLAIMED_POWER))]
+    if ups:
+        obj = ups[0].params.obj if isinstance(ups[0].params, BlockV) else None
+        if obj is None:
+            P.append(tagged('C02', 'the power update carries typed params', False))
+        else:
+            P.append(tagged('C02', "declared faults lose their power at once: the miner's claim moves by exactly the sum of the recorded fault power deltas, in one update",
+                            b_and(len(ups) == 1, big(E, fget(E, obj, 0, 'BigInt')) == tot[0], big(E, fget(E, obj, 1, 'BigInt')) == tot[1])))
+    else:
+        P.append(tagged('C02', 'no power update is sent only when the declared faults carry no power', z3.And(tot[0] == 0, tot[1] == 0)))
+    led = ledgers(E, rt.state)
+    P.append(tagged('C03,C15', 'a fault declaration moves no collateral and charges nothing yet (the fee is charged by the deadline cron)',
+                    z3.And(led['ip'] == pre['ip'], led['pcd'] == pre['pcd'], led['lf'] == pre['lf'], led['fd'] == pre['fd'], *[s.value == 0 for s in rt.sends])))
+    return P
+
+
+def build_declare_faults(pid, tier):
+    wrap = lambda f: (lambda E, res: for_property(pid, f(E, res)))
+    return [Obligation('miner.declare_faults[deadlines=%d]' % n, run_declare_faults(n), wrap(props_declare_faults),
+                       descr="fault declaration: only inside each deadline's declaration window; the claim falls at once by exactly the sum of the recorded fault power; no collateral moves",
+                       bounds='%d declared deadline(s); CUTS: parameter map, declaration_deadline_info, declaration-window check (arbitrary verdict), deadline / sector loading, Deadline::record_faults (arbitrary recorded delta); sends succeed' % n,
+                       max_paths=100000, wall_s=300) for n in ([1, 2] if tier == 'quick' else [1, 2, 3])]
+
+
+# ---- terminate_sectors: terminated sectors lose their power at once and are queued for their termination fee ------------------
+# CUTS (declared): the parameter map, deadline_is_mutable (arbitrary verdict), deadline / sector loading and saving,
+# Deadline::terminate_sectors -> arbitrary removed power >= 0 (recorded), request_current_epoch_block_reward /
+# request_current_total_power (typed answers), process_early_terminations (arbitrary "more work" flag, no effect: decided by its
+# own whole-method obligation).
+
+def run_terminate_sectors(ndl):
+    def run(E):
+        rt, rtref = new_rt(E)
+        pre = mk_miner_state(E, 0)
+        ST = SF()
+        env = E.ctx.env
+        # work pending before the call: none, or one deadline already flagged
+        if E.ctx.branch(z3.Bool('early_terminations_pending_before')):
+            e0 = E.materialize('u64', 'et0.deadline')
+            E.ctx.assume(e0.v < 48)
+            et0 = models_fvm.BitSetV((e0.v,))
+            env['et0'] = [e0.v]
+        else:
+            et0 = models_fvm.BitSetV(())
+            env['et0'] = []
+        pre['st'] = E.set_path(pre['st'], [('field', ST['early_terminations'], 'BitField')], et0)
+        rt.state = pre['st']
+        E.ctx.assume(rt.balance >= pre['pcd'] + pre['lf'] + pre['ip'])
+        E.ctx.assume(z3.And(rt.epoch >= 0, rt.epoch < 2**40))
+        E.ctx.assume(z3.Not(C13.bz(C13.view(E, pre['info'])['pw_some'])))
+        env['balance0'] = rt.balance
+        lz = lambda nm, ty: (lambda E2, c: ok(LazyV(E2.ctx.fresh_name(nm), ty), c.dest_ty))
+        okc = lambda E2, c: ok(UNIT, c.dest_ty)
+        dls = [E.materialize('u64', 'term%d.deadline' % i) for i in range(ndl)]
+        for a, b in zip(dls, dls[1:]):
+            E.ctx.assume(a.v < b.v)
+        for d in dls:
+            E.ctx.assume(d.v < 48)
+        env['dls'] = [d.v for d in dls]
+        E.cuts['DeadlineSectorMap::add'] = okc
+        E.cuts['DeadlineSectorMap::check'] = okc
+        E.cuts['DeadlineSectorMap::iter'] = lambda E2, c: ObjV(models_core.ListIter([StructV('tuple', {0: d, 1: RefV(Cell(LazyV('partition_map%d' % i, 'deadline_state::PartitionSectorMap'), 'pm'), (), True)}) for i, d in enumerate(dls)]))
+        E.cuts['State::load_deadlines'] = lz('deadlines', 'deadlines::Deadlines')
+        E.cuts['State::save_deadlines'] = okc
+        E.cuts['Sectors::load'] = lz('sectors', 'sectors::Sectors')
+        E.cuts['Deadlines::load_deadline'] = lz('dl', 'deadline_state::Deadline')
+        E.cuts['Deadlines::update_deadline'] = okc
+        E.cuts['State::current_proving_period_start'] = lambda E2, c: E2.materialize('i64', E2.ctx.fresh_name('period_start'))
+        E.cuts['State::quant_spec_for_deadline'] = lambda E2, c: LazyV(E2.ctx.fresh_name('quant'), 'quantize::QuantSpec')
+        mut = env.setdefault('mutable', [])
+
+        def cut_mutable(E2, c):
+            b = E2.ctx.fresh_bool('deadline_is_mutable')
+            mut.append(b)
+            return b
+        E.cuts['deadline_is_mutable'] = cut_mutable
+        E.cuts['deadlines::deadline_is_mutable'] = cut_mutable
+        removed = env.setdefault('removed', [])
+
+        def cut_term(E2, c):
+            k = len(removed)
+            pd = (z3.Int('removed%d.raw' % k), z3.Int('removed%d.qa' % k))
+            E2.ctx.assume(z3.And(pd[0] >= 0, pd[1] >= 0))
+            removed.append(pd)
+            return ok(_pp(*pd), c.dest_ty)
+        E.cuts['Deadline::terminate_sectors'] = cut_term
+        E.cuts['request_current_epoch_block_reward'] = lz('rew', 'ext::reward::ThisEpochRewardReturn')
+        E.cuts['request_current_total_power'] = lz('pow', 'ext::power::CurrentTotalPowerReturn')
+        E.cuts['process_early_terminations'] = _cut_pet
+        from .miner_money import install_bib_cut
+        install_bib_cut(E)
+        rt.send_hook = lambda E2, rt2, rec, nm: ('ok', None)
+        decls = [StructV('types::TerminationDeclaration', {0: d, 1: E.materialize('u64', 'term%d.partition' % i), 2: models_fvm.BitFieldV('term%d.sectors' % i)}) for i, d in enumerate(dls)]
+        params = StructV('types::TerminateSectorsParams', {0: VecV(decls, 'Vec<TerminationDeclaration>')})
+        fn = find_fn(E, MINER, 'terminate_sectors', 'src/lib.rs')
+        return E.run_function(fn, [rtref, params]), rt
+    return run
+
+
+def props_terminate_sectors(E, res):
+    from .miner_money import bib_prop
+    env = res.ctx.env
+    rt, pre = env['rt'], env['pre']
+    ctx = res.ctx
+    ST = SF()
+    if res.kind != 'return':
+        return [tagged('ALL', 'no panic (%s)' % str(res.info)[:60], False)]
+    if is_err(res.value):
+        return [bib_prop(res), tagged('C02,C15', 'a refused termination changes no power', all(implied(ctx, b_not(b_and(s.to.key == POWER, zv(s.method) == UPDATE_CLAIMED_POWER))) for s in rt.sends))]
+    removed = env.get('removed', [])
+    dls = env['dls']
+    P = [tagged('C15,C02', 'every declared deadline has its sectors terminated', len(removed) == len(dls)),
+         tagged('C15', 'sectors are terminated only in deadlines that are not being proven (mutable)', z3.And(*env.get('mutable', [])) if env.get('mutable') else z3.BoolVal(False))]
+    tot = (sum(r[0] for r in removed) if removed else 0, sum(r[1] for r in removed) if removed else 0)
+    ups = [s for s in rt.sends if implied(ctx, b_and(s.to.key == POWER, zv(s.method) == UPDATE_CLAIMED_POWER))]
+    if ups:
+        obj = ups[0].params.obj if isinstance(ups[0].params, BlockV) else None
+        if obj is None:
+            P.append(tagged('C02', 'the power update carries typed params', False))
+        else:
+            P.append(tagged('C02', "terminated sectors lose their power at once: the miner's claim falls by exactly the sum of the removed power, in one update",
+                            b_and(len(ups) == 1, big(E, fget(E, obj, 0, 'BigInt')) == -tot[0], big(E, fget(E, obj, 1, 'BigInt')) == -tot[1])))
+    else:
+        P.append(tagged('C02', 'no power update is sent only when the terminated sectors carried no power', z3.And(tot[0] == 0, tot[1] == 0)))
+    # every declared deadline is flagged for fee assessment, earlier flags are kept
+    et1 = E.deref(fget(E, rt.state, ST['early_terminations'], 'BitField'))
+    bits = list(getattr(et1, 'bits', ()))
+    for d in dls + env['et0']:
+        P.append(tagged('C15', 'every deadline with terminated sectors is (and stays) flagged for termination-fee assessment', any(implied(ctx, b == d) for b in bits)))
+    # the assessment is started at once; when it does not finish and no work was pending before (so no callback exists), a
+    # callback for the next epoch continues it
+    et2 = []
+    for s in rt.sends:
+        if implied(ctx, b_and(s.to.key == POWER, zv(s.method) == ENROLL_CRON)):
+            obj = s.params.obj if isinstance(s.params, BlockV) else None
+            payload = E.deref(fget(E, obj, 1, 'RawBytes')) if obj is not None else None
+            pobj = payload.obj if isinstance(payload, BlockV) else None
+            if pobj is not None and implied(ctx, fget(E, pobj, 0, 'i64').v == 2):
+                et2.append(fget(E, obj, 0, 'i64').v)
+    more = env.get('pet_more')
+    P.append(tagged('C15', 'termination-fee assessment is started by the call itself', bool(env.get('pet_called'))))
+    if more is not None:
+        P.append(tagged('C15,C05', 'unfinished assessment is continued by a callback at the next epoch when none was pending',
+                        z3.Implies(z3.And(more, z3.BoolVal(len(env['et0']) == 0)), z3.BoolVal(len(et2) >= 1))))
+        for e_ in et2:
+            P.append(tagged('C15,C05', 'the continuation callback is for the next epoch', e_ == rt.epoch + 1))
+    led = ledgers(E, rt.state)
+    P.append(tagged('C03', 'the termination call itself moves no collateral (fees and pledge release happen in the assessment step)',
+                    z3.And(led['ip'] == pre['ip'], led['pcd'] == pre['pcd'], led['lf'] == pre['lf'], led['fd'] == pre['fd'])))
+    return P
+
+
+def build_terminate_sectors(pid, tier):
+    wrap = lambda f: (lambda E, res: for_property(pid, f(E, res)))
+    return [Obligation('miner.terminate_sectors[deadlines=%d]' % n, run_terminate_sectors(n), wrap(props_terminate_sectors),
+                       descr="sector termination: only in mutable deadlines; the claim falls at once by the removed power; every affected deadline is flagged for fee assessment, which starts in the call and is continued by a next-epoch callback if unfinished",
+                       bounds='%d declared deadline(s), none or one deadline flagged before; CUTS: parameter map, deadline_is_mutable (arbitrary verdict), deadline / sector loading, Deadline::terminate_sectors (arbitrary recorded power), network queries, process_early_terminations (arbitrary flag); sends succeed' % n,
+                       max_paths=100000, wall_s=300) for n in ([1, 2] if tier == 'quick' else [1, 2, 3])]
